@@ -390,7 +390,8 @@ def gen_batch(rng, nstructs=14, can=False, granular_share=0.0, big=False):
         if gran:
             gprev.append(name)
         if can:
-            bus = rng.choice(["b", "b1", "bus", "can1", "ab", "x", "CAN1", "B1", "Bus", "X"])  # also names that differ in letter case only
+            # also names that differ in letter case only, and names longer than the four characters of a frame's tag
+            bus = rng.choice(["b", "b1", "bus", "can1", "ab", "x", "CAN1", "B1", "Bus", "X", "chassis", "powertrain", "canbus2"])
             # ids from a small pool half of the time: several bindings share an id on different buses (and now and then
             # on the same bus, where the first one wins in both wrappers and in the model)
             cid = rng.choice([0, 0, 7, 100, 1000, 2047]) if rng.random() < 0.5 else rng.randint(0, 2047)
@@ -401,7 +402,7 @@ def gen_batch(rng, nstructs=14, can=False, granular_share=0.0, big=False):
                 fbus, fid = rng.choice(["l0", "lin", "b", "b1", bus]), rng.choice([cid, cid + 1, 3, 0])
                 other = f'impl {rng.choice(["lin", "uart", "CAN", "canfd"])} for {name} {{\n    id: {fid},\n    bus: "{fbus}",\n}}'
                 extra += [other, can_b] if rng.random() < 0.5 else [can_b, other]
-                d.foreign[name] = (fid, [ord(c) for c in fbus] + [0] * (4 - len(fbus)))
+                d.foreign[name] = (fid, ([ord(c) for c in fbus] + [0] * 4)[:4])
             else:
                 extra.append(can_b)
     if not can:
